@@ -138,7 +138,7 @@ class Ctx:
         self.maxima: dict[str, Any] = {}
         self.minima: dict[str, Any] = {}
         self.evaluations = 0
-        self.nt: set[str] = set()
+        self.nt: set[int] = set()   # 64-bit case hashes
         self.samples: list[Any] = []
         self.violations: list[dict] = []
         self._mech_count: Counter[str] = Counter()
@@ -164,10 +164,10 @@ class Ctx:
             self.minima[key] = v
 
     def nontrivial(self, *parts: Any) -> None:
-        self.nt.add(case_hash(*parts))
+        self.nt.add(int(case_hash(*parts), 16))
 
     def nontrivial_hash(self, h: str) -> None:
-        self.nt.add(h)
+        self.nt.add(int(h, 16))
 
     def sample(self, obj: Any, limit: int = 3) -> None:
         if len(self.samples) < limit:
@@ -215,7 +215,7 @@ class Ctx:
             "evaluations": self.evaluations,
             "counters": dict(self.counters),
             "maxima": jsonable(self.maxima), "minima": jsonable(self.minima),
-            "nt": sorted(self.nt), "samples": self.samples,
+            "nt": [], "nt_count": len(self.nt), "samples": self.samples,
             "violations": self.violations,
             "inconclusive": self.inconclusive, "notes": self.notes,
             "exhaustive": self.exhaustive,
@@ -239,6 +239,12 @@ def _run_shard_subprocess(pid: str, tier: str, seed: int, idx: int,
         out.unlink()
     spec.write_text(json.dumps({"idx": idx, **shard}))
     env = engine_env(shard.get("engine", "jit"), thash)
+    # numba's on-disk cache is not safe for concurrent writers (two processes
+    # can pick the same data-file name for different signatures, after which
+    # the index hands out the wrong machine code): one directory per shard,
+    # used by one process at a time (locked in shard_main)
+    env["NUMBA_CACHE_DIR"] = os.path.join(
+        env["NUMBA_CACHE_DIR"], f"{pid}-{shard.get('name', idx)}")
     env["VERIF_SEED"] = str(seed)
     cmd = [PY, "-m", "vlib.main", pid, tier, "--shard", str(spec),
            "--out", str(out)]
@@ -331,7 +337,9 @@ def _run(mod, pid, tier, seed, thash, workdir, t0) -> int:
             txt = proc.logfile.read_text(errors="replace")
             if out.is_file():
                 try:
-                    results.append(json.loads(out.read_text()))
+                    res_ = json.loads(out.read_text())
+                    res_["nt_file"] = str(out) + ".nt.npy"
+                    results.append(res_)
                 except Exception as e:  # noqa
                     inconclusive.append(
                         f"shard {sh['name']}: unreadable result ({e})")
@@ -361,7 +369,7 @@ def _run(mod, pid, tier, seed, thash, workdir, t0) -> int:
     counters: Counter[str] = Counter()
     maxima: dict[str, Any] = {}
     minima: dict[str, Any] = {}
-    nt: set[str] = set()
+    nt_parts: list = []
     samples: list = []
     violations: list[dict] = list(crash_violations)
     notes: list[str] = []
@@ -380,7 +388,9 @@ def _run(mod, pid, tier, seed, thash, workdir, t0) -> int:
         for k, v in r["minima"].items():
             if k not in minima or v < minima[k]:
                 minima[k] = v
-        nt.update(r["nt"])
+        if r.get("nt_file") and os.path.isfile(r["nt_file"]):
+            import numpy as np
+            nt_parts.append(np.load(r["nt_file"]))
         for s in r["samples"]:
             if len(samples) < 6:
                 samples.append(s)
@@ -395,6 +405,13 @@ def _run(mod, pid, tier, seed, thash, workdir, t0) -> int:
         per_shard.append({"name": r["name"], "engine": r["engine"],
                           "evaluations": r["evaluations"],
                           "wall_s": r["wall_s"]})
+
+    if nt_parts:
+        import numpy as np
+        n_distinct = int(np.unique(np.concatenate(nt_parts)).size)
+    else:
+        n_distinct = 0
+    del nt_parts
 
     required = getattr(mod, "REQUIRED", {})
     req = required(tier) if callable(required) else required
@@ -444,7 +461,7 @@ def _run(mod, pid, tier, seed, thash, workdir, t0) -> int:
     # ---- evidence ---------------------------------------------------------
     cov = {
         "evaluations": int(evaluations),
-        "distinct_nontrivial": len(nt),
+        "distinct_nontrivial": n_distinct,
         "rule": getattr(mod, "RULE", ""),
         "samples": samples if samples else ["(no sample recorded)"],
         "exhaustive": bool(exhaustive) and bool(
@@ -472,7 +489,7 @@ def _run(mod, pid, tier, seed, thash, workdir, t0) -> int:
     (evdir / f"{pid}.json").write_text(
         json.dumps(ev, indent=1, sort_keys=True))
     print(f"{pid} {tier} seed={seed}: evaluations={evaluations} "
-          f"distinct_nontrivial={len(nt)} violations={len(real)} "
+          f"distinct_nontrivial={n_distinct} violations={len(real)} "
           f"known={len(known_hit)} inconclusive={len(inconclusive)} "
           f"wall={ev['wall_s']}s verdict={cov['verdict']}")
     top = sorted(counters.items(), key=lambda kv: -kv[1])[:14]
@@ -497,6 +514,30 @@ def blame(e: BaseException) -> str | None:
     return None
 
 
+_CACHE_LOCK = None
+
+
+def _lock_numba_cache() -> None:
+    """Hold an exclusive lock on this shard's numba cache directory; if some
+    other process holds it, use a private throw-away directory instead."""
+    global _CACHE_LOCK
+    d = os.environ.get("NUMBA_CACHE_DIR")
+    if not d or "numba" in sys.modules:
+        return
+    import fcntl
+    try:
+        os.makedirs(d, exist_ok=True)
+        fh = open(os.path.join(d, ".lock"), "w")
+        fcntl.flock(fh, fcntl.LOCK_EX | fcntl.LOCK_NB)
+        _CACHE_LOCK = fh
+    except OSError:
+        import atexit
+        import tempfile
+        t = tempfile.mkdtemp(prefix="verif-nbc-")
+        os.environ["NUMBA_CACHE_DIR"] = t
+        atexit.register(shutil.rmtree, t, True)
+
+
 def shard_main(pid: str, tier: str, spec_file: str, out_file: str) -> int:
     import importlib
     spec = json.loads(Path(spec_file).read_text())
@@ -508,6 +549,7 @@ def shard_main(pid: str, tier: str, spec_file: str, out_file: str) -> int:
         sys.path.append(deps)
     import faulthandler
     faulthandler.enable()
+    _lock_numba_cache()
     ctx = Ctx(pid, tier, seed, spec["idx"], spec["name"], engine)
     ctx.spec = {k: v for k, v in spec.items() if k != "idx"}
     mod = importlib.import_module(f"checks.{pid}")
@@ -550,5 +592,9 @@ def shard_main(pid: str, tier: str, spec_file: str, out_file: str) -> int:
             ctx.inconclusive_because(
                 f"harness/workload exception {type(e).__name__}: {e}\n"
                 + "\n".join(tb.splitlines()[-12:]))
+    # the distinct-case hashes go to a binary side file (millions of them)
+    import numpy as np
+    np.save(out_file + ".nt.npy",
+            np.fromiter(ctx.nt, dtype=np.uint64, count=len(ctx.nt)))
     Path(out_file).write_text(json.dumps(ctx.result()))
     return 0
